@@ -111,6 +111,7 @@ public:
       Memory::copy(buffer, data, size);
       bufferStart = buffer;
       bufferEnd = buffer + requiredCapacity;
+      *bufferEnd = 0;
     }
     else
     {
@@ -121,6 +122,7 @@ public:
       delete [] (char*)buffer;
       bufferStart = buffer = newBuffer;
       bufferEnd = newBuffer+ requiredCapacity;
+      *bufferEnd = 0;
     }
   }
 
@@ -174,7 +176,11 @@ public:
   {
     bufferStart += size;
     if(bufferStart >= bufferEnd)
+    {
       bufferStart = bufferEnd = buffer ? buffer : (byte*)&_capacity;
+      if(buffer)
+        *bufferEnd = 0;
+    }
   }
 
   void removeBack(usize size)
